@@ -10,9 +10,9 @@
    frequency f:  ts == H(queue) + c_ref / f,  for an arbitrary rational host epoch H per queue
    (queue = rank: hash(pid)).  Nothing is assumed about where wraps fall, about the order of the
    events, about how many epochs the trace spans, or about names beyond their phase suffix.
-   [fguard] is exactly the guard of the two float divisions in frequency_stats (an Exec slice of
-   duration 0, or at the host time of the queue's previous Exec slice, raises ZeroDivisionError in
-   the real code; the model returns Err there and the theorem excludes it).
+   [fguard] is exactly the guard of the float division in frequency_stats (an Exec slice of
+   duration 0 raises ZeroDivisionError in the real code; the model returns Err there and the theorem
+   excludes it; the second division, by the gap to the previous Exec slice, is guarded since /repo fix C02d).
    [run f ic evs] is the model of normalize_phase1 ; pipeline_barrier ; normalize_phase2. *)
 From Coq Require Import ZArith QArith List Bool String Lia.
 Import ListNotations.
